@@ -89,6 +89,8 @@ func run(family string, line []byte, rec *recorder, opt string) {
 		runCRC(line, rec)
 	case "dvb":
 		runDVB(line, rec)
+	case "ts":
+		runTS(line, rec)
 	case "demux", "pair", "merge", "skip", "rewind", "rfault", "reader", "robust":
 		var sc streamScenario
 		if err := json.Unmarshal(line, &sc); err != nil {
